@@ -244,7 +244,13 @@ static bool run_nm(Rng& rng, const ObjN& o, std::vector<double> start, std::vect
 	for(auto& v : pp)
 		f_init_best = std::min(f_init_best, o(v));
 	auto cnt = std::make_shared<long>(0);
-	std::function<double(std::vector<double>)> func = [cnt, &o](std::vector<double> x) { ++*cnt; return o(x); };
+	auto wrong_size = std::make_shared<long>(0);
+	std::function<double(std::vector<double>)> func = [cnt, wrong_size, n, &o](std::vector<double> x) {
+		++*cnt;
+		if((int) x.size() != n)
+			++*wrong_size;	 // the worker has minimised in other dimensions before: a scratch buffer kept between calls shows up here
+		return o(x);
+	};
 	Minimization fresh(ftol);
 	Minimization& M = reuse ? *reuse : fresh;	// a caller may keep one object for a whole sequence of minimisations
 	bool same_delta = true;
@@ -269,6 +275,7 @@ static bool run_nm(Rng& rng, const ObjN& o, std::vector<double> start, std::vect
 	f_final = o(res);
 	nmax_hit = (M.nfunc >= 5000);
 	auto det = [&] { return J().i("overload", overload).d("f(result)", f_final).d("best_initial", f_init_best).d("fmin", M.fmin).i("nfunc", M.nfunc).i("evaluations", evals); };
+	require("nd-objective-receives-vectors-of-the-problem-dimension", *wrong_size == 0, [&] { return det().i("calls_with_wrong_size", *wrong_size).i("n", n); });
 	require("nd-descent", f_final <= f_init_best, det);
 	bool shape = ((int) res.size() == n && (int) M.y.size() == n + 1 && (int) M.current_simplex.size() == n + 1);
 	require("nd-state-shape", shape, det);
